@@ -97,7 +97,7 @@ pub fn run_case(toks: &[&str], em: &mut Emitter) {
     });
 }
 
-fn emit(em: &mut Emitter, op: &str, p: &str, w: &str) {
+pub fn emit(em: &mut Emitter, op: &str, p: &str, w: &str) {
     let line = format!("{} {} {}", op, p, w);
     let toks: Vec<&str> = line.split(' ').collect();
     run_case(&toks, em);
